@@ -139,12 +139,11 @@ Proof.
   rewrite position_range_app. replace (Z.of_nat (Z.to_nat (n + 1))) with (n + 1) by lia.
   destruct (charset_range_hit f n sid) eqn:Eh.
   - apply range_hit_iff in Eh. unfold in_range in Eh. cbn [fst snd] in Eh.
-    unfold charset_range_index. rewrite add_u16_ok by lia. cbn [cbind].
+    unfold charset_range_index, chk_u16, U16. match goal with |- context [?a <? 65536] => replace (a <? 65536) with true by lia end.
     destruct (Z.leb_spec f sid), (Z.ltb_spec sid (f + (n + 1))); cbn [andb]; try lia. reflexivity.
   - assert (Hno : ~ in_range (f, n) sid) by (rewrite <- range_hit_iff; congruence).
     unfold in_range in Hno. cbn [fst snd] in Hno.
-    unfold charset_range_skip. rewrite add_u16_ok by lia. cbn [cbind].
-    rewrite add_u16_ok by lia. cbn [cbind Z.add]. rewrite IH by (try assumption; lia).
+    unfold charset_range_skip, U32. match goal with |- context [?a <? 4294967296] => replace (a <? 4294967296) with true by lia end. rewrite IH by (try assumption; lia).
     destruct (Z.leb_spec f sid), (Z.ltb_spec sid (f + (n + 1))); cbn [andb]; try lia; reflexivity.
 Qed.
 
@@ -163,8 +162,7 @@ Proof.
     cbn [app gid_for_sid_in_ranges].
     destruct (charset_range_hit f n sid) eqn:Eh.
     + apply range_hit_iff in Eh. exfalso. apply (Hno (f, n)); [left; reflexivity|exact Eh].
-    + unfold charset_range_skip. rewrite add_u16_ok by lia. cbn [cbind].
-      rewrite add_u16_ok by lia. cbn [cbind Z.add].
+    + unfold charset_range_skip, U32. match goal with |- context [?a <? 4294967296] => replace (a <? 4294967296) with true by lia end.
       rewrite IH; try assumption; try lia.
       * f_equal. lia.
       * intros r Hr. apply Hno. right. exact Hr.
@@ -190,7 +188,7 @@ Proof.
   rewrite gid_for_sid_skips by (try assumption; lia).
   cbn [gid_for_sid_in_ranges].
   assert (Eh : charset_range_hit f n sid = true) by (apply range_hit_iff; exact Hin).
-  rewrite Eh. unfold charset_range_index. rewrite add_u16_ok by lia. reflexivity.
+  rewrite Eh. unfold charset_range_index, chk_u16, U16. match goal with |- context [?a <? 65536] => replace (a <? 65536) with true by lia end. reflexivity.
 Qed.
 
 (* NOT FOUND: no range holds the SID *)
